@@ -34,6 +34,7 @@ def run(ctx):
     ctx.obligation("whole tool on corpus/c02: %d marked dereferences next to constructs outside the generator (channel receives, range, map lookups, type assertions, closures, select, defer): protected ones never reported, in every scheduling mode" % nm, nm > 0 and not mbad)
     for b in mbad[:3]:
         ctx.violation("context", "C02 fails on the real tool: %s\nreplay: bin/harness analyze -dir corpus/c02\n" % b)
+    markers.corpus_modules(ctx, "c02r", "spellings of nil checks: converted nil, boolean-tagged switch, comparison with a boolean constant, re-checked prefix")
     known_ids = set(k["id"] for k in ctx.known_for())
     corpus = PC.c02_cases()
     rc = PF.run_suite(ctx, corpus, nb=4)
